@@ -32,6 +32,7 @@ inductive Ev
   | fallback     -- block fallback or default rejection produced
   | nilDeref     -- a method of the nil entry was called: nil-pointer panic
   | unknown      -- the translator met a construct it does not understand (fail closed)
+  | badGuard     -- an option field is called under a nil-test of a *different* option field
 deriving DecidableEq, Repr
 
 /-- what a framework needs to know about its handler chain (C19 round 3: "return without calling next" only
@@ -110,6 +111,9 @@ inductive Stmt
       -- invoke the wrapped handler; `errBack`: its error result is received by the adapter;
       -- `traceOnErr`: followed by `if err != nil { sentinel.TraceError(e, err) }`
   | unknown                            -- anything the translator cannot classify
+  | badGuard
+      -- `if o.f != nil { … o.g(…) … }` with g ≠ f outside the block branch (e.g. the resource extractor): with only
+      -- `g` configured it is ignored, with only `f` configured a nil function is called
 
 structure Prog where
   key     : String          -- "<adapter file>:<function>[:<arm>]"
@@ -127,9 +131,12 @@ structure St where
   advanced     : Bool := false       -- the body itself invoked the next handler
 deriving Repr
 
-/-- every alternative of the rejection contains a call that … -/
+/-- every alternative of the rejection contains a call that …, and none of them contains a mis-guarded option call
+(`misguarded`: the fallback option is called under a nil-test of *another* option field, so the configured fallback
+is skipped when only it is set, and a nil function is called when only the other one is: such an alternative neither
+produces the rejection nor stops anything) -/
 def allAlts (alts : List (List String)) (f : String → Bool) : Bool :=
-  !alts.isEmpty && alts.all fun a => a.any f
+  !alts.isEmpty && alts.all fun a => !a.contains "misguarded" && a.any f
 
 mutual
 def exec (ch : Chain) (sc : Scenario) (s : St) : Stmt → St
@@ -157,6 +164,7 @@ def exec (ch : Chain) (sc : Scenario) (s : St) : Stmt → St
           else s1
       | .panic => { s1 with stopped := true, panicking := true }
   | .unknown => { s with trace := s.trace ++ [.unknown] }
+  | .badGuard => { s with trace := s.trace ++ [.badGuard] }
 def execList (ch : Chain) (sc : Scenario) (s : St) : List Stmt → St
   | [] => s
   | x :: r => if s.stopped then s else execList ch sc (exec ch sc s x) r
@@ -191,7 +199,7 @@ nothing to exit; admitted ⇒ handler exactly once, exit exactly once and after 
 panic), no rejection, and an error handed back by the framework is traced (before the exit). -/
 def conformsTrace (sc : Scenario) (tr : List Ev) : Bool :=
   tr.head? = some .entryAsked && count .entryAsked tr = 1 &&
-  count .nilDeref tr = 0 && count .unknown tr = 0 &&
+  count .nilDeref tr = 0 && count .unknown tr = 0 && count .badGuard tr = 0 &&
   (if sc.blocked then
      count .handlerRun tr = 0 && count .fallback tr = 1 && count .exit tr = 0
    else
@@ -239,12 +247,12 @@ def Scenario.text (s : Scenario) : String :=
 def Ev.text : Ev → String
   | .entryAsked => "entryAsked" | .handlerRun => "handlerRun" | .errBack => "errBack"
   | .traced => "traced" | .exit => "exit" | .fallback => "fallback" | .nilDeref => "nilDeref"
-  | .unknown => "unknown"
+  | .unknown => "unknown" | .badGuard => "badGuard"
 
 def Ev.parse? : String → Option Ev
   | "entryAsked" => some .entryAsked | "handlerRun" => some .handlerRun | "errBack" => some .errBack
   | "traced" => some .traced | "exit" => some .exit | "fallback" => some .fallback
-  | "nilDeref" => some .nilDeref | "unknown" => some .unknown | _ => none
+  | "nilDeref" => some .nilDeref | "unknown" => some .unknown | "badGuard" => some .badGuard | _ => none
 
 def traceText (tr : List Ev) : String := ",".intercalate (tr.map Ev.text)
 
@@ -256,7 +264,7 @@ def Stmt.text : Stmt → String
   | .reject alts => "reject:" ++ "|".intercalate (alts.map fun a => "+".intercalate a)
   | .ret => "ret" | .deferExit => "deferExit" | .exitNow => "exitNow"
   | .useEntry => "useEntry" | .callNext eb tr => "callNext:" ++ bit eb ++ ":" ++ bit tr
-  | .unknown => "unknown"
+  | .unknown => "unknown" | .badGuard => "badGuard"
 def textList : List Stmt → String
   | [] => ""
   | x :: r => x.text ++ " " ++ textList r
@@ -278,7 +286,7 @@ def parseStmts : Nat → List String → Option (List Stmt × List String)
       let one : Option Stmt := match t with
         | "entry" => some .entry | "ret" => some .ret
         | "deferExit" => some .deferExit | "exitNow" => some .exitNow | "useEntry" => some .useEntry
-        | "unknown" => some .unknown
+        | "unknown" => some .unknown | "badGuard" => some .badGuard
         | "callNext:0:0" => some (.callNext false false) | "callNext:0:1" => some (.callNext false true)
         | "callNext:1:0" => some (.callNext true false) | "callNext:1:1" => some (.callNext true true)
         | _ =>
